@@ -79,6 +79,13 @@ def blame(o, flag, init):
     return who
 
 
+def optkey(o):
+    """the option values of an option run, for keys of failure classes that depend on the value (a rule failing under
+    another value is another finding)"""
+    opts = (o.get("label") or {}).get("options") or o.get("derived_options") or {}
+    return ",".join("%s=%s" % (k_, json.dumps(v_, default=str)) for k_, v_ in sorted(opts.items()) if k_ != "disable")[:60]
+
+
 def common_ties(ck, data, pid):
     """the correspondence every trace-based property rests on: the update model reproduces every observed list"""
     n = 0
